@@ -156,7 +156,23 @@ func randIP(r *rand.Rand, v6 bool) net.IP {
 		n = 16
 	}
 	b := make(net.IP, n)
-	switch r.Intn(6) {
+	switch r.Intn(7) {
+	case 2: // IPv6 text forms with "::" in the middle and digit-only last groups (fe80::1:2, fd74:ca9b:172:18::2:15), which
+		// a reader taking the text for host:port would cut short; ::1 and fe80::5 likewise
+		if v6 {
+			if r.Intn(2) == 0 {
+				copy(b, []byte{0xfe, 0x80})
+			} else if r.Intn(2) == 0 {
+				copy(b, []byte{0xfd, 0x74, 0xca, 0x9b, 0x01, 0x72, 0x00, 0x18})
+			}
+			dec := []byte{0, 1, 2, 0x15, 0x80, 0x99}
+			b[15] = dec[r.Intn(len(dec))]
+			b[14] = []byte{0, 0, 0x44}[r.Intn(3)]
+			if r.Intn(3) > 0 {
+				b[13] = dec[1+r.Intn(len(dec)-1)]
+			}
+			return b
+		}
 	case 0: // the unspecified address (what non-Service flows carry as cluster IP): 0.0.0.0 and :: share their leading bytes
 		return b
 	case 1: // an IPv4 address and an IPv6 address that agree on their first four bytes, the rest of the latter being zero
